@@ -6,6 +6,7 @@ import (
 	"os"
 	"path/filepath"
 	"strings"
+	"time"
 
 	"tags.cncf.io/container-device-interface/pkg/cdi"
 	"tags.cncf.io/container-device-interface/pkg/parser"
@@ -637,8 +638,52 @@ func (validateStream) Execute(c Case) {
 				return nil
 			})
 		}
-		obs["refresh_json"] = refresh(dj, pj)
-		obs["refresh_yaml"] = refresh(dy, py)
+		// the same through a cache with a past: it loaded another document from this very path - a well-formed one, or
+		// one that does not parse - which was then replaced in place by the document under test, same size, same
+		// modification time (cp -p, rsync -t). Admission is a function of what the file holds now.
+		hist := func(dir, path string, text []byte, pastGood bool) string {
+			past := []byte(`{"cdiVersion":"0.6.0","kind":"past.com/c","devices":[{"name":"d","containerEdits":{"env":["A=b"]}}]}`)
+			if !pastGood {
+				past = []byte("{ this is : not [ a spec")
+			}
+			n := len(text)
+			if len(past) > n {
+				n = len(past)
+			}
+			pad := func(b []byte) []byte {
+				return append(append([]byte{}, b...), []byte(strings.Repeat("\n", n-len(b)))...)
+			}
+			stamp := time.Unix(1700000000, 0)
+			return admitVerdict(func() error {
+				_ = os.WriteFile(path, pad(past), 0o644)
+				_ = os.Chtimes(path, stamp, stamp)
+				cache, _ := cdi.NewCache(cdi.WithSpecDirs(dir), cdi.WithAutoRefresh(false))
+				_ = cache.Refresh()
+				_ = cache.ListDevices()
+				if f, err := os.OpenFile(path, os.O_WRONLY, 0); err == nil { // in place: same inode, no truncation needed
+					_, _ = f.Write(pad(text))
+					_ = f.Close()
+				}
+				_ = os.Chtimes(path, stamp, stamp)
+				_ = cache.Refresh()
+				errs := cache.GetErrors()[path]
+				_ = os.WriteFile(path, text, 0o644)
+				if len(errs) > 0 {
+					return errs[0]
+				}
+				return nil
+			})
+		}
+		fj, fy := refresh(dj, pj), refresh(dy, py)
+		pastGood := (len(jsonText)+len(yamlText))%2 == 0
+		if hj := hist(dj, pj, jsonText, pastGood); hj != fj {
+			fj = hj
+		}
+		if hy := hist(dy, py, yamlText, !pastGood); hy != fy {
+			fy = hy
+		}
+		obs["refresh_json"] = fj
+		obs["refresh_yaml"] = fy
 		// the writer's gate on the typed value obtained from the JSON text
 		obs["write"] = "skipped"
 		func() {
